@@ -1,5 +1,6 @@
 import FV.Props.Catalog
 import FV.C04Layout
+import FV.EmplaceEnum
 /-! # C19 — content errors are reported at the byte that is wrong
 
 The position of an error is defined by the nesting path: the leaf validators (`Bool`, enum tags, UTF-8) report a position
@@ -159,6 +160,121 @@ theorem C19_vec_elems (d : Dict) (dOff : Nat) (s : Slice) : ∀ (k i : Nat) (e :
           simp only [Res.offset_ok, Res.bind_ok] at h
           obtain ⟨j, sub, inner, hj1, hj2, hj3, hj4, hj5⟩ := ih (i + 1) e h
           exact ⟨j, sub, inner, by omega, by omega, hj3, hj4, hj5⟩
+
+/-- **Enum payload.** An error of an unsized enum is the tag's (`InvalidEnumTag` at byte 0), the room check's (`InsufficientSize`
+at `DATA_OFFSET`), or the error of the variant's field list shifted by exactly `DATA_OFFSET`. -/
+theorem C19_enum_payload (tag : LenTy) (vs : List (List Dict)) (s : Slice) (e : Err) (h : (uenumD tag vs).validateU s = .err e) :
+    e = ⟨.invalidEnumTag, 0⟩ ∨ e = ⟨.insufficientSize, ceilMul tag.size (max tag.align (alignLL vs))⟩ ∨
+      ∃ t data inner, tag.readU s = .ok t ∧ validateAll (vs.getD t []) 0 data = .err inner ∧
+        data.bytes = ((s.bytes.drop (ceilMul tag.size (max tag.align (alignLL vs)))).take
+          (floorMul (s.len - ceilMul tag.size (max tag.align (alignLL vs))) (max tag.align (alignLL vs)))) ∧
+        e = ⟨inner.kind, inner.pos + ceilMul tag.size (max tag.align (alignLL vs))⟩ := by
+  simp only [uenumD, Res.bind_eq] at h
+  cases hr : tag.readU s with
+  | ok t =>
+    rw [hr, Res.bind_ok] at h
+    split at h
+    · cases hd : s.dropU (ceilMul tag.size (max tag.align (alignLL vs))) with
+      | ok data0 =>
+        rw [hd, Res.bind_ok] at h
+        have hd0 : data0 = s.drop (ceilMul tag.size (max tag.align (alignLL vs))) := by
+          simp only [Slice.dropU] at hd; split at hd <;> cases hd; rfl
+        split at h
+        · cases h; exact Or.inr (Or.inl rfl)
+        · cases hv : validateAll (vs.getD t []) 0 (data0.take (floorMul data0.len (max tag.align (alignLL vs)))) with
+          | err inner =>
+            rw [hv, Res.offset_err] at h
+            cases h
+            refine Or.inr (Or.inr ⟨t, _, inner, rfl, hv, ?_, rfl⟩)
+            rw [hd0]; simp only [Slice.take, Slice.drop, Slice.len, List.length_drop]
+          | ok u => rw [hv] at h; simp at h
+          | fault f => rw [hv] at h; simp at h
+      | err e' => simp [Slice.dropU] at hd; split at hd <;> cases hd
+      | fault f => rw [hd] at h; simp at h
+    · cases h; exact Or.inl rfl
+  | err e' => simp [LenTy.readU] at hr; split at hr <;> (try split at hr) <;> cases hr
+  | fault f => rw [hr] at h; simp at h
+
+/-- **FlexVec items.** An error of the chain walk is reported either at a slot (`BadAlign`, an unreadable or impossible offset:
+at the slot's own position; an item that does not fit: `InsufficientSize` at the slot's payload) or is the error of one item
+shifted by exactly that item's payload position — slot position + `OFFSET_SIZE`. -/
+theorem C19_flex_items (d : Dict) (l : LenTy) (os : Nat) : ∀ (fuel pos : Nat) (data : Slice) (e : Err),
+    flexValidate d l os fuel pos data = .err e →
+    (∃ q, pos ≤ q ∧ (e.pos = q ∨ e.pos = q + os) ∧ (e.kind = .badAlign ∨ e.kind = .insufficientSize ∨ e.kind = .invalidData)) ∨
+    ∃ (q : Nat) (payload : Slice) (inner : Err), pos ≤ q ∧ d.validate payload = .err inner ∧ e = ⟨inner.kind, inner.pos + (q + os)⟩ := by
+  intro fuel
+  induction fuel with
+  | zero => intro pos data e h; simp [flexValidate] at h
+  | succ f ih =>
+    intro pos data e h
+    unfold flexValidate at h
+    split at h
+    · cases h; exact Or.inl ⟨pos, Nat.le_refl _, Or.inl rfl, Or.inl rfl⟩
+    · cases hc : checkAlignMin l.align l.size data with
+      | err e' =>
+        simp only [hc] at h; cases h
+        have := checkAlignMin_err_kind hc
+        unfold checkAlignMin at hc
+        refine Or.inl ⟨pos, Nat.le_refl _, Or.inl ?_, ?_⟩
+        · split at hc
+          · cases hc; simp
+          · split at hc
+            · cases hc; simp
+            · cases hc
+        · rcases this with h1 | h1
+          · exact Or.inr (Or.inl h1)
+          · exact Or.inl h1
+      | fault w => simp [hc] at h
+      | ok u =>
+        simp only [hc] at h
+        cases hr : l.readU data with
+        | err e' => simp [LenTy.readU] at hr; split at hr <;> (try split at hr) <;> cases hr
+        | fault w => simp [hr] at h
+        | ok next =>
+          simp only [hr] at h
+          split at h
+          · cases h
+          · split at h
+            · cases h; exact Or.inl ⟨pos, Nat.le_refl _, Or.inl rfl, Or.inr (Or.inr rfl)⟩
+            · split at h
+              · cases h; exact Or.inl ⟨pos, Nat.le_refl _, Or.inr rfl, Or.inr (Or.inl rfl)⟩
+              · split at h
+                · -- last item
+                  cases hs : data.splitAt os with
+                  | ok pr =>
+                    obtain ⟨fst, payload⟩ := pr
+                    simp only [hs] at h
+                    cases hv : d.validate payload with
+                    | err inner =>
+                      rw [hv, Res.offset_err] at h; cases h
+                      exact Or.inr ⟨pos, payload, inner, Nat.le_refl _, hv, rfl⟩
+                    | ok u => rw [hv] at h; simp at h
+                    | fault w => rw [hv] at h; simp at h
+                  | err e' => simp [Slice.splitAt] at hs; split at hs <;> cases hs
+                  | fault w => simp [hs] at h
+                · cases hs : data.splitAt next with
+                  | ok pr =>
+                    obtain ⟨item, rest⟩ := pr
+                    simp only [hs] at h
+                    cases hs2 : item.splitAt os with
+                    | ok pr2 =>
+                      obtain ⟨fst, payload⟩ := pr2
+                      simp only [hs2] at h
+                      cases hv : d.validate payload with
+                      | err inner =>
+                        rw [hv, Res.offset_err] at h; cases h
+                        exact Or.inr ⟨pos, payload, inner, Nat.le_refl _, hv, rfl⟩
+                      | ok u =>
+                        rw [hv] at h
+                        simp only [Res.offset_ok] at h
+                        rcases ih (pos + next) rest e h with ⟨q, hq, hp, hk⟩ | ⟨q, pl, inner, hq, hv', he⟩
+                        · exact Or.inl ⟨q, by omega, hp, hk⟩
+                        · exact Or.inr ⟨q, pl, inner, by omega, hv', he⟩
+                      | fault w => rw [hv] at h; simp at h
+                    | err e' => simp [Slice.splitAt] at hs2; split at hs2 <;> cases hs2
+                    | fault w => simp [hs2] at h
+                  | err e' => simp [Slice.splitAt] at hs; split at hs <;> cases hs
+                  | fault w => simp [hs] at h
 
 /-- non-vacuity: a bad `Bool` in the second element of `[WithBool; 2]` (byte 12) and in a vector element -/
 example : (Ty.arr WithBool 2).dict.validate ⟨0, [1,0,0,0, 1,0,0,0,  2,0,0,0, 7,0,0,0]⟩ = .err ⟨.invalidData, 12⟩ := by decide
